@@ -421,6 +421,9 @@ var zrMenu = []zrReq{
 	{Prompt: "y", NumPredict: 4, NumKeep: 0},
 	{Prompt: "xyxyxyx", NumPredict: 2, NumKeep: 1},
 	{Prompt: "xy", NumPredict: 3, NumKeep: 0, Stop: []string{"y"}},
+	// every pair of generated tokens is a stop sequence: the first token is held back and decoded, the second
+	// completes the stop, both are cut from the record - a decoded token stays in the cache beyond the recorded inputs
+	{Prompt: "xy", NumPredict: 4, NumKeep: 0, Stop: []string{"xx", "xy", "xz", "yx", "yy", "yz", "zx", "zy", "zz"}},
 }
 
 // zrAlone: what a fresh runner of the same configuration generates for spec (memoised per process)
@@ -619,7 +622,7 @@ func ZZVerifC07() {
 	}
 	cfgs := zrConfigs(thorough)
 	maxEvents, maxReqs := 5, 2
-	menu := []int{0, 1, 2, 3, 4, 5}
+	menu := []int{0, 1, 2, 3, 4, 5, 6}
 	if thorough {
 		maxEvents, maxReqs = 7, 3
 	}
